@@ -169,6 +169,11 @@ def gen_case(rng, abi=False):
     if source is not None and rng.chance(0.3):
         # non-ASCII text in the C source (encoded length != number of characters)
         source += '\n/* %s */\n' % rng.choice(['caf\u00e9', '\u00fcber \u2192 na\u00efve', '\u4e2d\u6587 \U0001f600', '\u00a9 2026'])
+    if source is not None:
+        r3 = rng.fork('eol')
+        if r3.chance(0.12):
+            # C source with other line endings than '\n' (a file read with newline='', a literal)
+            source = source.replace('\n', '\r\n') if r3.chance(0.6) else source + '/* old mac */\rint eol_dummy;\r'
     packed = rng.chance(0.1)
     case = dict(cdef='\n'.join(decls), name=modname, source=source, packed=packed)
     # declarations that reach the FFI object by other ways than its first cdef(): an included
